@@ -10,7 +10,9 @@ sys.path.insert(0, VERIF)
 TRUSTED = ('Trusted base: rustc front end (resolution, type check, HIR), the rta-facts serialiser, the rule '
            'engine in sa/, and the tables in sa/ (equation tables, monotonicity axioms, vetted sites). Linear '
            'forms ignore u64 wrap-around. The check decides the named structural clauses for all inputs; it '
-           'does not decide the behavioural property as a whole.')
+           'does not decide the behavioural property as a whole. Every check also runs the clause sets of the properties '
+           'its property rests on (the model code an analysis calls; DEPS in sa/props.py, DESIGN.md section 18) and '
+           'reports a failing imported clause under its own rule and key.')
 
 CLAIMS = {
     'C01': dict(
